@@ -588,6 +588,10 @@ func (r *rewriter) selectStmt(s *ast.SelectStmt) []ast.Stmt {
 	if !r.on("R2") {
 		return []ast.Stmt{s}
 	}
+	if out := r.selectPolled(s); out != nil {
+		return out
+	}
+	r.skip("select left to the runtime's own choice (a case sends, binds or has side effects)", s.Pos())
 	site := r.site("select", s.Pos())
 	h := r.fresh("h")
 	for _, c := range s.Body.List {
@@ -1195,4 +1199,111 @@ func (r *rewriter) rewriteRecvs(body *ast.BlockStmt) {
 		}
 		return r.rtCall(fn, u.X, intLit(site))
 	})
+}
+
+// pureChanExpr: an identifier or a chain of field selections.
+func pureChanExpr(e ast.Expr) bool {
+	switch v := e.(type) {
+	case *ast.Ident:
+		return true
+	case *ast.SelectorExpr:
+		return pureChanExpr(v.X)
+	case *ast.ParenExpr:
+		return pureChanExpr(v.X)
+	}
+	return false
+}
+
+// selectPolled rewrites a select whose cases are all plain receives (value discarded) from
+// side-effect-free channel expressions, with or without default, so that the simulator owns
+// the choice among ready cases:
+//
+//	h := Pre(site, KSelect); sel := -1
+//	for _, i := range SelectOrder(site, n) { switch i { case 0: select { case <-c0: sel = 0; default: } ... }; if sel >= 0 { break } }
+//	if sel < 0 { select { case <-c0: sel = 0; case <-c1: sel = 1 [default: sel = d] } }
+//	Post(h, site); switch sel { case 0: body0 ... }
+//
+// With no engine SelectOrder is empty and the original select decides alone.
+func (r *rewriter) selectPolled(s *ast.SelectStmt) []ast.Stmt {
+	type cs struct {
+		ch   ast.Expr
+		body []ast.Stmt
+		def  bool
+	}
+	var cases []cs
+	for _, c := range s.Body.List {
+		cc := c.(*ast.CommClause)
+		if cc.Comm == nil {
+			cases = append(cases, cs{def: true, body: cc.Body})
+			continue
+		}
+		es, ok := cc.Comm.(*ast.ExprStmt)
+		if !ok {
+			return nil
+		}
+		u, ok := isRecv(es.X)
+		if !ok || !pureChanExpr(u.X) {
+			return nil
+		}
+		cases = append(cases, cs{ch: u.X, body: cc.Body})
+	}
+	if len(cases) == 0 {
+		return nil
+	}
+	site := r.site("select", s.Pos())
+	h := r.fresh("h")
+	sel := r.fresh("sel")
+	iv := r.fresh("i")
+	setSel := func(i int) ast.Stmt {
+		return &ast.AssignStmt{Lhs: []ast.Expr{id(sel)}, Tok: token.ASSIGN, Rhs: []ast.Expr{intLit(i)}}
+	}
+	recv := func(ch ast.Expr) ast.Stmt {
+		return &ast.ExprStmt{X: &ast.UnaryExpr{Op: token.ARROW, X: ch}}
+	}
+	// polling switch
+	var pollCases []ast.Stmt
+	nRecv := 0
+	for i, c := range cases {
+		if c.def {
+			continue
+		}
+		nRecv++
+		one := &ast.SelectStmt{Body: &ast.BlockStmt{List: []ast.Stmt{
+			&ast.CommClause{Comm: recv(c.ch), Body: []ast.Stmt{setSel(i)}},
+			&ast.CommClause{Comm: nil, Body: nil},
+		}}}
+		pollCases = append(pollCases, &ast.CaseClause{List: []ast.Expr{intLit(i)}, Body: []ast.Stmt{one}})
+	}
+	if nRecv == 0 {
+		return nil
+	}
+	poll := &ast.RangeStmt{Key: id("_"), Value: id(iv), Tok: token.DEFINE, X: r.rtCall("SelectOrder", intLit(site), intLit(len(cases))),
+		Body: &ast.BlockStmt{List: []ast.Stmt{
+			&ast.SwitchStmt{Tag: id(iv), Body: &ast.BlockStmt{List: pollCases}},
+			&ast.IfStmt{Cond: &ast.BinaryExpr{X: id(sel), Op: token.GEQ, Y: intLit(0)}, Body: &ast.BlockStmt{List: []ast.Stmt{&ast.BranchStmt{Tok: token.BREAK}}}},
+		}}}
+	// blocking select (the original communication set)
+	var blockCases []ast.Stmt
+	for i, c := range cases {
+		if c.def {
+			blockCases = append(blockCases, &ast.CommClause{Comm: nil, Body: []ast.Stmt{setSel(i)}})
+		} else {
+			blockCases = append(blockCases, &ast.CommClause{Comm: recv(c.ch), Body: []ast.Stmt{setSel(i)}})
+		}
+	}
+	block := &ast.IfStmt{Cond: &ast.BinaryExpr{X: id(sel), Op: token.LSS, Y: intLit(0)}, Body: &ast.BlockStmt{List: []ast.Stmt{&ast.SelectStmt{Body: &ast.BlockStmt{List: blockCases}}}}}
+	// dispatch
+	var bodyCases []ast.Stmt
+	for i, c := range cases {
+		bodyCases = append(bodyCases, &ast.CaseClause{List: []ast.Expr{intLit(i)}, Body: c.body})
+	}
+	dispatch := &ast.SwitchStmt{Tag: id(sel), Body: &ast.BlockStmt{List: bodyCases}}
+	return []ast.Stmt{
+		r.preStmt(h, site, "KSelect"),
+		&ast.AssignStmt{Lhs: []ast.Expr{id(sel)}, Tok: token.DEFINE, Rhs: []ast.Expr{&ast.UnaryExpr{Op: token.SUB, X: intLit(1)}}},
+		poll,
+		block,
+		r.postStmt(h, site),
+		dispatch,
+	}
 }
